@@ -81,6 +81,13 @@ def stage_W(d: str, spec: dict, order: list, crash_after=None, disk_fault=None, 
     out = {}
     if want_digests:
         out["digests"] = _in_memory_digests(gw, order)
+        # the writer "takes in strings and writes out a grid": the grid those strings name, built without the writer
+        from molgri.space.fullgrid import FullGrid
+
+        class _Direct:
+            fg = FullGrid(spec["b"], spec["o"], spec["t"], factor=spec["factor"],
+                          position_grid_cartesian=spec["cartesian"])
+        out["direct_digests"] = _in_memory_digests(_Direct, order)
     return out
 
 
@@ -985,11 +992,19 @@ def _nt(t: str) -> int:
 #   C20
 # ---------------------------------------------------------------------------------------------------------------------
 
-def load_energy_observation(path: str, column: str) -> dict:
+_READERS = {}
+
+
+def load_energy_observation(path: str, column: str, reuse: bool = False) -> dict:
     """What a reader process sees: frame shape, column names, values (as hex, bit exact) and the single column.
-    Conversions that fail are reported as part of the observation (the judge turns them into violations)."""
+    Conversions that fail are reported as part of the observation (the judge turns them into violations).
+    With `reuse` the EnergyReader object made for this path earlier in the run is asked again (the file may have been
+    rewritten in between)."""
     from molgri.io import EnergyReader
-    er = EnergyReader(path)
+    if reuse and path in _READERS:
+        er = _READERS[path]
+    else:
+        er = _READERS[path] = EnergyReader(path)
     df = er.load_energy()
     obs = {"columns": [str(c) for c in df.columns], "shape": list(df.shape), "index": [repr(i) for i in df.index],
            "values": None, "single": None}
@@ -1123,7 +1138,14 @@ class PersistenceCheck(Check):
             es2 = gen_energy_spec(rng, fmt="xvg")
             es2["numfmt"] = rng.choice(GROMACS_TOKEN_STYLES)
             es2["n_rows"] = rng.choice([1, 5, 120])
-            ops = [{"op": "peer_write", "es": es2, "crash": rng.choice([None, {"kind": "torn_write", "frac": 0.5}])}] + ops
+            first = [{"op": "peer_write", "es": es2, "crash": rng.choice([None, {"kind": "torn_write", "frac": 0.5}])}]
+            if first[0]["crash"] is None and rng.random() < 0.6:
+                # a reader looks at the first table, the table is rewritten, the SAME reader object is asked again
+                first.append({"op": "read", "mode": "warm", "hashseed": 0})
+                for o in ops:
+                    if o["op"] == "read":
+                        o["mode"], o["reuse_reader"] = "warm", True
+            ops = first + ops
         return {"kind": "energy", "es": es, "rng_init": rng.randrange(2 ** 32), "ops": ops}
 
     def execute(self, sc):
@@ -1158,6 +1180,11 @@ class PersistenceCheck(Check):
                             probes["overwrite_on_same_paths"] = probes.get("overwrite_on_same_paths", 0) + 1
                             if len(current[1]) > len(op["order"]):
                                 probes["shorter_file_set_after_longer"] = 1
+                        for nm in op["order"]:
+                            if res.get("direct_digests") and res["direct_digests"][nm] != res["digests"][nm]:
+                                raise Violation("writer-vs-grid", f"step {step}: what the writer holds for "
+                                                f"{GRID_FILES[nm]} is not what FullGrid({sp['b']}, {sp['o']}, {sp['t']}, "
+                                                f"factor={sp['factor']}, position_grid_cartesian={sp['cartesian']}) gives")
                         current = (sp, list(op["order"]), res["digests"])
                         writes += 1
                         log.add("W", "write", [sp["b"], sp["o"], sp["t"]], res["digests"])
@@ -1255,8 +1282,11 @@ class PersistenceCheck(Check):
                         target = os.path.join(d, "energy.csv")
                         frame.to_csv(target)
                     try:
-                        obs = run_stage("load_energy", {"path": target, "column": es["column"]}, op.get("mode", "warm"),
-                                        op.get("hashseed", 0))
+                        largs = {"path": target, "column": es["column"]}
+                        if op.get("mode", "warm") == "warm" and op.get("reuse_reader"):
+                            largs["reuse"] = True
+                            probes["reader_object_reused"] = probes.get("reader_object_reused", 0) + 1
+                        obs = run_stage("load_energy", largs, op.get("mode", "warm"), op.get("hashseed", 0))
                     except StageFailed as e:
                         raise Violation(f"exception:{e.etype}", f"step {step}: EnergyReader failed on {op['op']} "
                                                                 f"({len(es['legends'])} legends, {es['n_hash']} '#' "
